@@ -53,8 +53,9 @@ def capture_change(K, name, s, *args):
 def pos_pair(K, name):
     """x_t and the reference value x_s in the domain of the transform."""
     logs = "log" in name
-    x = K.real("x", positive=logs)
-    y = K.real("y", positive=logs, nonzero=name in ("pct", "roc", "apct", "aroc"))
+    ann = name in ("apct", "aroc")          # (x/y)**365 overflows floats away from 1: narrow only the native cross-check draws
+    x = K.real("x", positive=logs, sample=(0.98, 1.02) if ann else None)
+    y = K.real("y", positive=logs, nonzero=name in ("pct", "roc", "apct", "aroc"), sample=(0.98, 1.02) if ann else None)
     return x, y
 
 
